@@ -39,6 +39,11 @@ type c20Pace struct {
 	Cycles int  `json:"cycles"`
 	Off    bool `json:"sound_off"`
 	NoOut  bool `json:"no_outputs"`
+	// Trig > 0: in machine cycle TrigAt of the counted run a channel is (re)started (1-4: NRx2 = F0 / NR30 = 80, then
+	// NRx4 = 80), or a mixer register is rewritten (5: NR50, 6: NR51, 7: NR12 envelope): none of the guest's register
+	// writes may move, drop or double a sample
+	Trig   int `json:"trig,omitempty"`
+	TrigAt int `json:"trig_at,omitempty"`
 }
 
 func c20PaceCheck(lc *explore.Local, _ struct{}, c c20Pace) *explore.Fail {
@@ -65,7 +70,36 @@ func c20PaceCheck(lc *explore.Local, _ struct{}, c c20Pace) *explore.Fail {
 	// sample k must fall in cycle floor((phi + 95k)/4) for one phi: keep the window of consistent phi
 	lo, hi := -1<<40, 1<<40
 	k := 0
+	if c.Trig > 0 {
+		ctx += fmt.Sprintf(" register event %d in cycle %d", c.Trig, c.TrigAt)
+		m.Map.Write(0xff25, 0xff)
+		m.Map.Write(0xff24, 0x77)
+	}
 	for n := 0; n < c.Cycles; n++ {
+		if c.Trig > 0 && n == c.TrigAt {
+			w := m.Map.Write
+			switch c.Trig {
+			case 1:
+				w(0xff12, 0xf0)
+				w(0xff14, 0x87)
+			case 2:
+				w(0xff17, 0xf0)
+				w(0xff19, 0x87)
+			case 3:
+				w(0xff1a, 0x80)
+				w(0xff1c, 0x20)
+				w(0xff1e, 0x87)
+			case 4:
+				w(0xff21, 0xf0)
+				w(0xff23, 0x80)
+			case 5:
+				w(0xff24, 0x35)
+			case 6:
+				w(0xff25, 0x5a)
+			case 7:
+				w(0xff12, 0x08)
+			}
+		}
 		nl, nr := step()
 		lc.Trans(1)
 		if nl != nr {
@@ -688,11 +722,20 @@ func init() {
 			c.R.Assumptions = []string{"samples are taken from the channels handed to audio.New (machine wiring; the speakers wiring of gameboy.New is compared in C26)"}
 		}
 		cycles := 2300000
-		explore.Product(c.R, "pacing", explore.PartOpt{Bound: fmt.Sprintf("%d machine cycles per run, every cycle observed", cycles), Domain: "9 phases; sound off; no outputs"},
+		explore.Product(c.R, "pacing", explore.PartOpt{Bound: fmt.Sprintf("%d machine cycles per run, every cycle observed", cycles), Domain: "9 phases; sound off; no outputs; a channel trigger or a mixer-register write in each of 96 consecutive machine cycles (a whole round of the 95-clock grid)"},
 			func(yield func(c20Pace) bool) {
 				for _, ph := range []int{0, 1, 2, 3, 23, 24, 1048575, 777777, 4000} {
 					if !yield(c20Pace{Phase: ph, Cycles: cycles}) {
 						return
+					}
+				}
+				// a channel started (or a mixer register rewritten) in every machine cycle of one 95-cycle round of the grid,
+				// twice: from idle and as a re-trigger
+				for trig := 1; trig <= 7; trig++ {
+					for at := 10; at < 106; at++ {
+						if !yield(c20Pace{Phase: 3, Cycles: 420, Trig: trig, TrigAt: at}) {
+							return
+						}
 					}
 				}
 				yield(c20Pace{Phase: 5, Cycles: 300000, Off: true})
